@@ -70,7 +70,7 @@ def case_for(c, model, cid, witness=()):
         'clauses_return': [[n, s] for n, s in c.ensures],
         'clauses_raise': {k: [['%s#%d' % (k, i), s] for i, s in enumerate(v)] for k, v in c.raises.items()},
         'allowed_raises': list(c.raises),
-        'reads': [[p, lo, hi] for p, (lo, hi) in c.reads.items()],
+        'reads': [[p, rd[0], rd[1], rd[2] if len(rd) > 2 else None] for p, rd in c.reads.items()],
         'witness': list(witness),
     }
 
